@@ -7,10 +7,12 @@
 //! * [`fs`]            replaces `std::fs` inside `stdlib::fs` and `LocalVariables::load` (import)
 //! * [`io::stdin`]     replaces `std::io::stdin` inside `stdlib::io::cgetline`
 //! * [`println!`]      replaces the prelude macro inside `stdlib::io`
+//! * [`fuel`]          bounds call depth (`Function::exec`) and loop iterations (`Loop::exec`)
 //!
 //! Every seam has a *pass-through* default: with nothing installed on the current OS thread the
 //! real std implementation is called, so one build serves every simulator.
 pub mod fs;
+pub mod fuel;
 pub mod io;
 pub mod os;
 pub mod sync;
